@@ -19,7 +19,7 @@ type proofUnit struct {
 	Credit   *ssa.MapUpdate // the credit
 	Execs    []core.AbsExec
 	Complete bool
-	Whole    bool // the unit is a whole function (Routine)
+	Whole    bool          // the unit is a whole function (Routine)
 	Routine  *ssa.Function // the function called once per (file, prover key)
 	Why      string
 }
@@ -194,4 +194,28 @@ func inCycleCallTo(p *core.Program, caller, callee *ssa.Function) bool {
 		}
 	})
 	return found
+}
+
+// loopHeaderOf: the header of the outermost loop of fn that contains block b (nil if b is in no loop): the block of b's
+// strongly connected component that dominates b and has a predecessor outside the component.
+func loopHeaderOf(fn *ssa.Function, b *ssa.BasicBlock) *ssa.BasicBlock {
+	if !core.InCycle(b) {
+		return nil
+	}
+	var header *ssa.BasicBlock
+	for _, c := range fn.Blocks {
+		if !(c == b || core.SameLoop(c, b)) || !c.Dominates(b) {
+			continue
+		}
+		outside := false
+		for _, pb := range c.Preds {
+			if !(pb == b || core.SameLoop(pb, b)) {
+				outside = true
+			}
+		}
+		if outside && (header == nil || c.Dominates(header)) {
+			header = c
+		}
+	}
+	return header
 }
